@@ -53,6 +53,7 @@ def symbolic_int_group(world, ev):
     r = session.rets(outs)
     if len(r) != 1:
         raise AnalysisError("%s(p, q, g) has %d normal construction paths on symbolic constants" % (icls.name, len(r)))
+    r[0].state.ctor_pc = list(r[0].state.pc)
     r[0].state.pc = []       # constructor assertions are facts about the group, not about later calls
     return r[0].state, r[0].value, {"p": p, "q": q, "g": g}
 
